@@ -209,6 +209,9 @@ def cmd_scan(argv):
 
 def _init_test_worker():
     d, tree = make_tree()
+    # a mutant that hangs a test must not cost ten minutes: nextest kills a test after 2 x 20 s
+    os.makedirs(os.path.join(tree, '.config'), exist_ok=True)
+    open(os.path.join(tree, '.config', 'nextest.toml'), 'w').write('[profile.default]\nslow-timeout = { period = "20s", terminate-after = 2 }\n')
     _state.update(d=d, tree=tree, pristine={}, tdir=os.path.join(d, 'target'))
 
 
